@@ -28,7 +28,7 @@ META['explanation'] += ' ' + 'R5 samples 8 byte fields beyond 2^32 and instants 
 
 META['explanation'] += ' ' + 'R8: timestamp fields receive the stored attribute (a constant in place of None never writes the sentinel).'
 
-META['explanation'] += ' ' + 'R3 also: a local-time function handed on as a value (converter), astimezone on a value whose zone was not tested. R10 / R11: the primitives keep nothing between calls. R12: no stripping, case mapping or replacement inside the shared string / byte primitives.'
+META['explanation'] += ' ' + 'R3 also: a local-time function handed on as a value (converter), astimezone on a value whose zone was not tested. R10 / R11: the primitives keep nothing between calls. R12: no stripping, case mapping or replacement inside the shared string / byte primitives. R13: compose_bytes / compose_string evaluated around the largest length the prefix holds.'
 
 LOCAL_TIME = {'time.mktime', 'time.localtime', 'time.timezone', 'time.altzone', 'time.daylight', 'time.tzname', 'time.ctime',
               'time.asctime', 'time.strftime'}
@@ -60,6 +60,7 @@ def check(ctx, report):
     stateless_parsing(ctx, report, RULE='C11.R11', allow_memo=True, modules=('cryptoparser/common/parse.py',),
                       title='no primitive writes class level state')
     octets_unchanged(ctx, report)
+    length_prefixed_bytes(ctx, report)
     pm = model.modules.get('cryptoparser.common.parse')
     if pm is None:
         report.error('C11: cryptoparser/common/parse.py vanished')
@@ -241,6 +242,71 @@ def local_time_apis(ctx, report, RULE='C11.R3', only=None):
                         report.add(RULE, f.construct + '@astimezone[%s]' % recv[:30],
                                    '%s.astimezone(...) without a test of %s.tzinfo: a datetime without zone is read as local time there, the rest '
                                    'of the package reads it as UTC' % (recv, recv))
+
+
+def length_prefixed_bytes(ctx, report, RULE='C11.R13',
+                          title='length-prefixed byte strings: every length the prefix can hold is composed (prefix + data), the first one it cannot hold is refused'):
+    """``compose_bytes`` / ``compose_string`` write ``len(data)`` in ``item_size`` octets and then the data.  Evaluated (sa.miniexec,
+    the numeric primitive modelled with its documented contract: InvalidValue for a value the width cannot hold) for data of
+    0, 1, 2^(8w)-2, 2^(8w)-1 octets - all must give prefix + data - and 2^(8w) octets - must be refused with InvalidValue - for
+    w = 1, 2: a pre-check that is off by one (``>=`` for ``>``) refuses the longest legal string, e.g. a 255 octet TXT chunk."""
+    from ..miniexec import Evaluator, ExcVal, Native, NativeError, Raised, Unsupported, class_call_hook
+    model = ctx.model
+    report.rule(RULE, title)
+    cb = model.try_cls('ComposerBinary')
+    if cb is None:
+        report.error('%s: ComposerBinary not found' % RULE)
+        return
+
+    class Refused(NativeError):
+        pass
+    Refused.__name__ = 'InvalidValue'
+
+    class State(Native):
+        _repo_class = cb
+
+        def __init__(self):
+            self._composed = bytearray()
+
+        def _compose_numeric_array(self, values, item_size):
+            for v in values:
+                if not 0 <= v < 2 ** (8 * item_size):
+                    raise Refused(v)
+                self._composed += int(v).to_bytes(item_size, 'big')
+    hook = class_call_hook(cb, None, model)
+    for prim, mk in (('compose_bytes', lambda n: b'x' * n), ('compose_string', lambda n: 'x' * n)):
+        f = cb.resolve(prim)
+        if f is None:
+            continue
+        report.touch(f)
+        for w in (1, 2):
+            top = 2 ** (8 * w) - 1
+            for n in (0, 1, top - 1, top, top + 1):
+                report.count(RULE)
+                me = State()
+                env = {'self': me, 'value': mk(n), 'item_size': w}
+                if prim == 'compose_string':
+                    env['encoding'] = 'ascii'
+                else:
+                    env['converter'] = bytearray
+                try:
+                    Evaluator(env, hook, hook.name_hook_for(f.module, None)).function(f.node)
+                    outcome = bytes(me._composed)
+                except Refused:
+                    outcome = 'InvalidValue'
+                except Raised as e:
+                    outcome = 'InvalidValue' if 'InvalidValue' in str(e.what) else 'raise ' + str(e.what)[:40]
+                except (Unsupported, AttributeError, TypeError) as e:
+                    report.undecided.append('%s: %s not evaluable: %s' % (RULE, prim, e))
+                    break
+                want = 'InvalidValue' if n > top else n.to_bytes(w, 'big') + b'x' * n
+                if outcome != want:
+                    shown = outcome if isinstance(outcome, str) else '%d octets starting %s' % (len(outcome), outcome[:4].hex())
+                    report.add(RULE, '%s@length[%s]' % (f.construct, 'max' if n == top else 'over' if n > top else 'below'),
+                               '%s of %d octets with a %d octet prefix (largest length it holds: %d) gives %s, expected %s' % (
+                                   prim, n, w, top, shown, want if isinstance(want, str) else 'the prefix and the data'))
+                    break
+    report.floor(RULE, 16, 'evaluated lengths')
 
 
 NORMALISING_METHODS = ('strip', 'lstrip', 'rstrip', 'lower', 'upper', 'title', 'casefold', 'swapcase', 'capitalize', 'expandtabs', 'translate',
